@@ -95,7 +95,17 @@ def import_library():
     if SRC_ROOT not in sys.path:
         sys.path.insert(0, SRC_ROOT)
     import numpy  # noqa: F401
-    import numdifftools
+    import scipy.linalg  # noqa: F401
+    import scipy.ndimage  # noqa: F401
+    import scipy.special  # noqa: F401
+    from . import locks
+    locks.install()          # locks created by the library at import time become cooperative
+    try:
+        import numdifftools
+        import numdifftools.limits, numdifftools.extrapolation, numdifftools.step_generators  # noqa
+        import numdifftools.finite_difference  # noqa: F401
+    finally:
+        locks.uninstall()
     here = os.path.realpath(numdifftools.__file__)
     if not here.startswith(LIB_ROOT):
         raise RuntimeError('numdifftools imported from %s, expected under %s' % (here, LIB_ROOT))
